@@ -5,11 +5,16 @@ use compute::predict::*;
 
 pub fn run(rng: &mut Rng, out: &mut Fails) {
     for case in 0..60 {
-        let var = rng.range(0.1, 4.); let ls = rng.range(0.2, 3.); let al = rng.range(0.2, 3.);
+        let var = rng.range(0.1, 4.); let ls = rng.range(0.2, 3.);
+        // exponents that invite a special-cased fast path are drawn exactly; point sets are also placed far from the origin
+        // (the kernels depend on x - y only; the offsets are small enough that the cancellation in the matrix form's
+        // x^2 + y^2 - 2xy stays two orders of magnitude below the comparison tolerance: 4 * 80^2 * 2^-53 / (2 * 0.2^2) < 4e-11)
+        let al = match case % 6 { 0 => 1.0, 1 => 2.0, 2 => 0.5, _ => rng.range(0.2, 3.) };
+        let off = [0., 0., 50., -80., 30.][case % 5];
         let rbf = RBFKernel::new(var, ls);
         let rq = RationalQuadraticKernel::new(var, al, ls);
         for _ in 0..20 {
-            let x = rng.range(-5., 5.); let y = rng.range(-5., 5.);
+            let x = off + rng.range(-5., 5.); let y = off + rng.range(-5., 5.);
             let inp = format!("var={} ls={} alpha={} x={} y={}", var, ls, al, x, y);
             let k: f64 = rbf.forward(x, y);
             let want = (-(x - y) * (x - y) / (2. * ls * ls)).exp() * var;
@@ -27,7 +32,7 @@ pub fn run(rng: &mut Rng, out: &mut Fails) {
         let q0: f64 = rq.forward(1.5, 1.5); if !close(q0, var, 1e-15) { fail(out, "RationalQuadraticKernel::forward(f64)", "C20.at_zero", format!("var={}", var), format!("{}", q0), format!("{}", var)); }
         // matrix form: rows = first argument, columns = second, entries = scalar form
         let n1 = 1 + rng.below(12); let n2 = 1 + rng.below(12);
-        let xs = rng.vec(n1, -3., 3.); let ys = rng.vec(n2, -3., 3.);
+        let xs = rng.vec(n1, off - 3., off + 3.); let ys = rng.vec(n2, off - 3., off + 3.);
         for which in 0..2 {
             let name = if which == 0 { "RBFKernel::forward(Vector)" } else { "RationalQuadraticKernel::forward(Vector)" };
             let inp = format!("var={} ls={} alpha={} xs={:?} ys={:?}", var, ls, al, xs, ys);
